@@ -14,6 +14,8 @@ from ..astutil import u
 RULE = 'R-TM.count'
 STEP = 'tm_do_transition'
 UNK = ('unk',)
+NONE = ('none',)
+SCEN = {'kind': 'never', 'at': 0}
 MAXPATHS = 400
 
 
@@ -22,14 +24,27 @@ def _has_step(node):
 
 
 class _Path:
-    __slots__ = ('env', 'steps')
+    __slots__ = ('env', 'steps', 'ret', 'err', 'first')
 
     def __init__(self, env, steps):
         self.env = env
         self.steps = steps
+        self.ret = UNK
+        self.err = None
+        self.first = None
 
     def copy(self):
-        return _Path(dict(self.env), self.steps)
+        q = _Path(dict(self.env), self.steps)
+        q.ret, q.err, q.first = self.ret, self.err, self.first
+        return q
+
+    def step(self):
+        if self.first is None:
+            self.first = {k: v[1] for k, v in self.env.items() if isinstance(v, tuple) and v[0] == 'list'}
+        # the step function raises when it is called in a halting state
+        if SCEN['kind'] != 'never' and self.steps >= SCEN['at'] and self.err is None:
+            self.err = 'the step function is called although the machine is in its {} state after {} step(s)'.format('accepting' if SCEN['kind'] == 'accept' else 'rejecting', SCEN['at'])
+        self.steps += 1
 
 
 def _val(e, env):
@@ -38,11 +53,25 @@ def _val(e, env):
             return e.value
         if isinstance(e.value, int):
             return e.value
+        if e.value is None:
+            return NONE
         return UNK
     if isinstance(e, ast.Name):
         return env.get(e.id, UNK)
     if isinstance(e, ast.List):
         return ('list', len(e.elts))
+    if isinstance(e, (ast.ListComp,)) and len(e.generators) == 1 and not e.generators[0].ifs:
+        src = _val(e.generators[0].iter, env)
+        if isinstance(src, tuple) and src[0] in ('str', 'list'):
+            return ('list', src[1])
+        return UNK
+    if isinstance(e, ast.Call) and isinstance(e.func, ast.Name) and e.func.id == 'list' and len(e.args) == 1:
+        src = _val(e.args[0], env)
+        if isinstance(src, tuple) and src[0] in ('str', 'list'):
+            return ('list', src[1])
+        return UNK
+    if isinstance(e, ast.Subscript) and isinstance(e.slice, ast.Slice) and e.slice.lower is None and e.slice.upper is None:
+        return _val(e.value, env)
     if isinstance(e, ast.BinOp) and isinstance(e.op, (ast.Add, ast.Sub, ast.Mult)):
         a, b = _val(e.left, env), _val(e.right, env)
         if isinstance(a, int) and isinstance(b, int) and not isinstance(a, bool) and not isinstance(b, bool):
@@ -50,7 +79,7 @@ def _val(e, env):
         return UNK
     if isinstance(e, ast.Call) and isinstance(e.func, ast.Name) and e.func.id == 'len' and len(e.args) == 1:
         v = _val(e.args[0], env)
-        if isinstance(v, tuple) and v[0] == 'list':
+        if isinstance(v, tuple) and v[0] in ('list', 'str'):
             return v[1]
         return UNK
     if isinstance(e, ast.Call) and isinstance(e.func, ast.Name) and e.func.id in ('max', 'min') and e.args:
@@ -66,15 +95,15 @@ def _halting_atom(e):
     return 'q_accept' in t or 'q_reject' in t
 
 
-def _cond(e, env):
+def _cond(e, env, steps=0):
     """True / False / None (undecided by the store)"""
     if isinstance(e, ast.Constant):
         return bool(e.value)
     if isinstance(e, ast.UnaryOp) and isinstance(e.op, ast.Not):
-        v = _cond(e.operand, env)
+        v = _cond(e.operand, env, steps)
         return None if v is None else (not v)
     if isinstance(e, ast.BoolOp):
-        vs = [_cond(v, env) for v in e.values]
+        vs = [_cond(v, env, steps) for v in e.values]
         if isinstance(e.op, ast.And):
             if any(v is False for v in vs):
                 return False
@@ -85,11 +114,15 @@ def _cond(e, env):
     if isinstance(e, ast.Compare) and len(e.ops) == 1:
         op = e.ops[0]
         if _halting_atom(e):
-            # scenario: the machine never reaches a halting state
+            # the scenario fixes the halting tests: never / accepting after `at` steps / rejecting after `at` steps
+            t = u(e)
+            acc, rej = 'q_accept' in t, 'q_reject' in t
+            halted = SCEN['kind'] != 'never' and steps >= SCEN['at']
+            hit = halted and ((acc and SCEN['kind'] == 'accept') or (rej and SCEN['kind'] == 'reject'))
             if isinstance(op, (ast.Eq, ast.In, ast.Is)):
-                return False
+                return hit
             if isinstance(op, (ast.NotEq, ast.NotIn, ast.IsNot)):
-                return True
+                return not hit
             return None
         a, b = _val(e.left, env), _val(e.comparators[0], env)
         if isinstance(a, int) and isinstance(b, int):
@@ -99,6 +132,8 @@ def _cond(e, env):
         v = env.get(e.id, UNK)
         if isinstance(v, bool):
             return v
+        if isinstance(v, tuple) and v[0] in ('list', 'str'):
+            return v[1] > 0
         return None
     return None
 
@@ -125,7 +160,7 @@ def _run(stmts, paths, budget):
             targets = st.targets if isinstance(st, ast.Assign) else [st.target]
             for p in fall:
                 if val is not None and _has_step(val):
-                    p.steps += 1
+                    p.step()
                     v = UNK
                 else:
                     v = _val(val, p.env) if val is not None else UNK
@@ -135,7 +170,7 @@ def _run(stmts, paths, budget):
         if isinstance(st, ast.AugAssign):
             for p in fall:
                 if _has_step(st.value):
-                    p.steps += 1
+                    p.step()
                 if isinstance(st.target, ast.Name):
                     a, b = p.env.get(st.target.id, UNK), _val(st.value, p.env)
                     if isinstance(a, int) and isinstance(b, int) and isinstance(st.op, (ast.Add, ast.Sub)):
@@ -147,7 +182,7 @@ def _run(stmts, paths, budget):
             c = st.value
             for p in fall:
                 if _has_step(c):
-                    p.steps += 1
+                    p.step()
                 if isinstance(c, ast.Call) and isinstance(c.func, ast.Attribute) and isinstance(c.func.value, ast.Name):
                     v = p.env.get(c.func.value.id, UNK)
                     if isinstance(v, tuple) and v[0] == 'list':
@@ -161,7 +196,7 @@ def _run(stmts, paths, budget):
         if isinstance(st, ast.If):
             t_paths, e_paths = [], []
             for p in fall:
-                v = _cond(st.test, p.env)
+                v = _cond(st.test, p.env, p.steps)
                 if v is True:
                     t_paths.append(p)
                 elif v is False:
@@ -215,7 +250,7 @@ def _run(stmts, paths, budget):
             for i in range(budget + 6):
                 stay, leave = [], []
                 for p in cur:
-                    v = _cond(st.test, p.env)
+                    v = _cond(st.test, p.env, p.steps)
                     if v is True:
                         stay.append(p)
                     elif v is False:
@@ -245,7 +280,11 @@ def _run(stmts, paths, budget):
         if isinstance(st, (ast.Return, ast.Raise)):
             for p in fall:
                 if isinstance(st, ast.Return) and st.value is not None and _has_step(st.value):
-                    p.steps += 1
+                    p.step()
+                if isinstance(st, ast.Return):
+                    p.ret = _val(st.value, p.env) if st.value is not None else NONE
+                else:
+                    p.ret = ('raise',)
             ret += fall
             fall = []
             continue
@@ -286,4 +325,64 @@ def check_step_count(ctx, rep, f, param='max_steps', rule=RULE):
         rep.violates(rule, f, 'def ' + f.name, 'with {} = {} a machine that never halts is run for {} step(s) instead of {}: the step budget is not the number of steps executed (the trace and the verdict of the bounded simulation disagree for that budget)'.format(
             param, k, ' or '.join(map(str, steps)), k))
     rep.extra.setdefault('tm_step_counts', {})[f.name] = {str(k): v for k, v in counts.items()}
+    return 1
+
+
+def check_scenarios(ctx, rep, f, kind, param='max_steps', rule='R-TM.model'):
+    """kind = 'verdict' (returns True / False / None) or 'trace' (returns the list of configurations).  For budgets k = 0..3
+    and the scenarios never-halts / accepts after j steps / rejects after j steps (j = 0..3), on every path:
+      the step function is never called in a halting state; the number of steps is min(j, k);
+      verdict: True / False when j <= k, None otherwise;  trace: the list returned has steps + 1 entries."""
+    if param not in f.params or not _has_step(f.node):
+        rep.undecided(rule, f, 'def ' + f.name, 'no step budget / no step call')
+        return 0
+    bad = None
+    runs = 0
+    wparam = next((p_ for p_ in f.params if p_ in ('word', 'w')), None)
+    tape_var = None
+    for c in ast.walk(f.node):
+        if isinstance(c, ast.Call) and isinstance(c.func, ast.Name) and c.func.id == STEP and len(c.args) >= 3 and isinstance(c.args[2], ast.Name):
+            tape_var = c.args[2].id
+    try:
+        for k in range(0, 4):
+            for sk, j in [('never', 0)] + [(x, j) for x in ('accept', 'reject') for j in range(0, 4)]:
+              for n in (0, 2):
+                SCEN['kind'], SCEN['at'] = sk, j
+                env0 = {param: k}
+                if wparam:
+                    env0[wparam] = ('str', n)
+                fall, brk, cont, ret = _run(f.node.body, [_Path(env0, 0)], k)
+                halts = sk != 'never' and j <= k
+                want_steps = j if halts else k
+                for p in fall + ret + brk + cont:
+                    runs += 1
+                    if bad is not None:
+                        break
+                    desc = 'budget {}, a word of length {} and a machine that {}'.format(k, n, 'never halts' if sk == 'never' else '{}s after {} step(s)'.format(sk, j))
+                    if tape_var and p.first is not None and p.first.get(tape_var) is not None and p.first[tape_var] != max(n, 1):
+                        bad = 'with {} the tape handed to the first step has {} cell(s) instead of {} (the word, or one blank for the empty word)'.format(desc, p.first[tape_var], max(n, 1))
+                    elif tape_var and p.first is not None and p.first.get(tape_var) is None:
+                        raise Unsupported('length of the initial tape not tracked')
+                    elif p.err:
+                        bad = 'with {}: {}'.format(desc, p.err)
+                    elif p.steps != want_steps:
+                        bad = 'with {} the loop runs {} step(s) instead of {}'.format(desc, p.steps, want_steps)
+                    elif kind == 'verdict':
+                        want = (True if sk == 'accept' else False) if halts else NONE
+                        if p.ret is UNK or p.ret != want:
+                            bad = 'with {} the verdict is {} instead of {}'.format(desc, 'None' if p.ret == NONE else p.ret, 'None' if want == NONE else want)
+                    elif kind == 'trace':
+                        if not (isinstance(p.ret, tuple) and p.ret[0] == 'list'):
+                            raise Unsupported('length of the returned trace not tracked')
+                        if p.ret[1] != want_steps + 1:
+                            bad = 'with {} the trace has {} configurations instead of {} (initial configuration + one per step)'.format(desc, p.ret[1], want_steps + 1)
+    except Unsupported as e:
+        SCEN['kind'], SCEN['at'] = 'never', 0
+        rep.undecided(rule, f, 'def ' + f.name, 'loop outside the counter fragment: {}'.format(e))
+        return 0
+    SCEN['kind'], SCEN['at'] = 'never', 0
+    if bad is None:
+        rep.holds(rule, f, 'def ' + f.name, 'counter model: for budgets 0..3 x scenarios (never halts, accepts / rejects after 0..3 steps) all {} paths take min(j, k) steps, never step in a halting state, and return the {}'.format(runs, 'right verdict (True / False / None)' if kind == 'verdict' else 'initial configuration plus one configuration per step'))
+    else:
+        rep.violates(rule, f, 'def ' + f.name, bad)
     return 1
